@@ -61,6 +61,7 @@ Proof.
   destruct (get_definition tok) as [definition sec].
   match goal with |- total (if ?c then _ else _) => destruct c; [exact I|] end.
   match goal with |- total (if ?c then _ else _) => destruct c; [exact I|] end.
+  match goal with |- total (match ?x with _ => _ end) => destruct x as [[new_sig new_sep] new_se] end.
   apply total_bind.
   - destruct sec; cbn [impl_err];
       repeat first
